@@ -13,6 +13,7 @@ import (
 	"os"
 	"os/exec"
 	"path/filepath"
+	"strings"
 	"syscall"
 	"time"
 
@@ -215,6 +216,10 @@ func genC20(c *Ctx) {
 		file.Info{Description: "JSON Web Token (JWT)", Attributes: []file.Attribute{{Name: "Audience", Value: "[\"a\x7f\u009b\"]"}, {Name: "Comment", Value: "[\n\"x\"]"}}},
 		file.Info{Description: "{\"a\":\n1}", Attributes: []file.Attribute{{Name: "[\n1]", Value: "{\"k\"\r:\"\x9b\"}"}}},
 		file.Info{}, // an empty report is exactly one (empty) line
+		// lines longer than 64 KiB (a line reader's or writer's usual limit) that are not the last line of the report:
+		// plain text, and control characters whose escaped form crosses the limit
+		file.Info{Description: "long", Attributes: []file.Attribute{{Name: "Comment", Value: strings.Repeat("a", 70000)}, {Name: "After", Value: "x"}},
+			Children: []file.Info{{Description: strings.Repeat("\x1b", 17000), Attributes: []file.Attribute{{Name: "n", Value: "v"}}}, {Description: "last"}}},
 	)
 	// every C0, DEL and C1 at start, middle and end
 	for b := 0; b < 0xa0; b++ {
